@@ -121,6 +121,13 @@ CLAIMED["C14"] = (
     "The spec's role is the matrix and the outcome alphabet; trusts TLC/Json and child-process isolation (20 s timeout per case).",
     "DESIGN.md section 5, C14")
 
+CLAIMED["C16"] = (
+    "TLC-enumerated coercion table (MC_Interop forms: type x value class x admissible form, type x ill-formed shape) and request matrix (all placements of declared parameters in args / env x extras x envelope variants), realised as JSON, run through interop::from_json and trp::parse_resolve_request + TLC trace validation (Trace_Interop)",
+    "TLC decides for every (type, form, value) whether the form is admissible (incl. the 64-bit limit of JSON numbers, by BigInt) and which keys a request must yield; the real functions are run on the realised JSON and TLC validates: admissible forms are inverted exactly, ill-formed shapes are rejected, "
+    "a request yields exactly the declared parameters supplied under either map with the right values, a bad envelope is an error, nothing panics (also on seeded random JSON).",
+    "Trusts TLC/Json/BigInt.tla; the textual codecs (hex, base64, bech32) of the realisation step are not specified.",
+    "DESIGN.md section 5, C16")
+
 ALL = ["C%02d" % i for i in range(1, 21)]
 
 NOT_YET = "check not built yet in this revision of /verif (planned: see DESIGN.md section 5); not claimed until its machinery exists and is quiet on the unchanged tree"
